@@ -44,7 +44,7 @@ def plan(tier):
   if tier == 'quick':
     return {'runs': 160, 'budget_s': 540, 'per_run_timeout_s': 500, 'selftest_runs': 8,
             'selftest_runs_full': 48, 'shrink_budget_s': 120}
-  return {'runs': 5000, 'budget_s': 3300, 'per_run_timeout_s': 900, 'selftest_runs': 16,
+  return {'runs': 5000, 'budget_s': 1800, 'per_run_timeout_s': 900, 'selftest_runs': 16,
           'selftest_runs_full': 96, 'shrink_budget_s': 240}
 
 
@@ -272,13 +272,16 @@ def execute(sc):
         if sum(ns) == 0:
           continue
         trained = []
+        ill = False
         for c in cl:
           batches = [b for k_, b in c[4] if k_ == 'srb']
           tc, _ = fedsim.ref_local_train(spec['model'], False, prevp[k], batches, c[2], copt)
+          ill = ill or (fedsim.ILL['flag'] and spec['copt'] in ('adam', 'adagrad', 'yogi'))
           trained.append(tc)
+        if ill:
+          continue
         mean = fedsim.weighted_mean_delta(prevp[k], trained, ns)
-        _, ref = sopt.apply(fedsim.to32(mean), prev.opt_states[k], prevp[k])
-        bad = fedsim.tree_close(state.cluster_params[k], ref)
+        bad, _wide = fedsim.server_step_check(sopt, mean, prev.opt_states[k], prevp[k], state.cluster_params[k])
         if bad:
           violation('own-clients', 'I:hyp-cluster-update-is-not-the-mean-of-its-own-clients',
                     f'{label}: cluster {k} with clients {[c[0] for c in cl]}: {bad}')
